@@ -5,6 +5,7 @@ import (
 	"encoding/hex"
 	"fmt"
 	"math/big"
+	"strings"
 
 	"github.com/btcsuite/btcd/btcec/v2"
 	"github.com/dominant-strategies/go-quai/common"
@@ -491,7 +492,7 @@ func auxMutations() []mutation {
 			s.wo.WorkObjectHeader().SetTime(uint64(s.tp.t.SignatureTime()) - 1)
 		}},
 	)
-	return ms
+	return append(ms, extraAuxMutations()...)
 }
 
 // ---------- observation of the model inputs from the (mutated) real objects ----------
@@ -529,7 +530,7 @@ func verdictOf(err error, p string) string {
 
 func vhCorpus() []string {
 	v := []string{"kawpow-default", "kawpow-own", "prefork-noaux", "prefork-aux", "transition-noaux", "posttransition-noaux", "fork-exact", "sha-in-block", "scrypt-in-block", "ptn-wrap-aux"}
-	return v
+	return append(v, extraCorpus(1)...)
 }
 
 type vhPlan struct {
@@ -586,6 +587,10 @@ func caseVH(h *H, r *hlib.Rng, variant string) {
 		plan.powid = 4
 	case "ptn-wrap-aux":
 		plan.ptn = fork + 7
+	default:
+		if _, m, ok := parseExtra(variant); ok {
+			plan.mut = m
+		}
 	}
 	s := buildSealed(r, plan.powid, plan.ptn, vhParent.Hash(), common.BytesToHash(r.Bytes(32)), 1)
 	if forceDefault {
@@ -611,7 +616,10 @@ func caseVH(h *H, r *hlib.Rng, variant string) {
 	var baseErr error
 	basePanic := guard(func() { baseErr = vhChain.hc.VerifC08VerifyHeader(s.wo, vhParent, false, 1<<62) })
 	h.rep.Count(fmt.Sprintf("vh-baseline-accepted:%v", baseErr == nil && basePanic == ""))
+	snap0 := snapAux(wh)
+	required := false
 	if plan.mut != nil {
+		required = plan.mut.required(s)
 		plan.mut.apply(s, r)
 	}
 	if variant == "ptn-wrap-aux" {
@@ -648,9 +656,13 @@ func caseVH(h *H, r *hlib.Rng, variant string) {
 			monitorAuxAccepted(h, "verifyHeader", wh, sigOK, false)
 		}
 	}
-	if plan.mut != nil && plan.mut.mustReject && basePanic == "" && baseErr == nil && err == nil {
+	if plan.mut != nil && required && basePanic == "" && baseErr == nil && err == nil {
 		h.fail("sealed-header-change-accepted:"+classOf(mname), fmt.Sprintf("a header accepted by verifyHeader is still accepted after changing %s", mname))
 	}
+	if plan.mut != nil && strings.HasPrefix(mname, "aux.") && basePanic == "" && baseErr == nil && err == nil && wh.AuxPow() != nil {
+		monitorUnbound(h, "verifyHeader", mname, wh, snap0, snapAux(wh), false)
+	}
+	monitorTemplate(h, "verifyHeader", wh.AuxPow())
 	if plan.mut == nil && variant == "kawpow-default" && err != nil {
 		h.fail("valid-merge-mined-header-rejected", "verifyHeader rejects a header merge-mined on the production-signed default kawpow template: "+err.Error())
 	}
@@ -699,8 +711,8 @@ func monitorAuxAccepted(h *H, site string, wh *types.WorkObjectHeader, sigOK boo
 // ---------- VerifyUncles ----------
 
 func uncleCorpus() []string {
-	return []string{"kawpow-share", "bch-default", "scrypt-default", "btc-own", "scrypt-auxpow2-short", "scrypt-auxpow2-empty", "sha-unsigned-invalid-address", "sha-unsigned-valid-address",
-		"scrypt-zero-doge", "kawpow-block-sibling", "share-diff-0"}
+	return append([]string{"kawpow-share", "bch-default", "scrypt-default", "btc-own", "scrypt-auxpow2-short", "scrypt-auxpow2-empty", "sha-unsigned-invalid-address", "sha-unsigned-valid-address",
+		"scrypt-zero-doge", "kawpow-block-sibling", "share-diff-0"}, extraCorpus(1, 2, 3, 4)...)
 }
 
 func caseUncle(h *H, r *hlib.Rng, variant string) {
@@ -717,6 +729,7 @@ func caseUncle(h *H, r *hlib.Rng, variant string) {
 	uptn := fork + uint64(r.Intn(int(trans+20000)))
 	invalidAddr := r.Chance(12)
 	forceDefault := false
+	xmut := false
 	e := envT{wsthr: 4}
 	post := func(s *sealed) {}
 	switch variant {
@@ -754,9 +767,13 @@ func caseUncle(h *H, r *hlib.Rng, variant string) {
 		powid, mut, invalidAddr = 1, nil, false
 	case "share-diff-0":
 		powid, mut, invalidAddr = 3, nil, false
+	default:
+		if p, m, ok := parseExtra(variant); ok {
+			powid, mut, invalidAddr, xmut = p, m, false, true
+		}
 	}
 	parent := unAnc[len(unAnc)-1]
-	sealZeroShares = variant == "kawpow-share" || (powid == 1 && r.Chance(80)) // a kawpow share needs share target > block target
+	sealZeroShares = variant == "kawpow-share" || xmut || (powid == 1 && r.Chance(80)) // a kawpow share needs share target > block target
 	s := buildSealed(r, powid, uptn, parent.Hash(), parent.Hash(), 0)
 	sealZeroShares = false
 	wh := s.wo.WorkObjectHeader()
@@ -793,7 +810,7 @@ func caseUncle(h *H, r *hlib.Rng, variant string) {
 		default:
 			e.h1 = hashOf(new(big.Int).Add(st, big.NewInt(int64(r.Intn(3)))))
 		}
-		if variant == "kawpow-share" {
+		if variant == "kawpow-share" || xmut {
 			e.h1 = hashOf(new(big.Int).Add(tgt, big.NewInt(1)))
 		}
 		if variant == "kawpow-block-sibling" {
@@ -843,7 +860,10 @@ func caseUncle(h *H, r *hlib.Rng, variant string) {
 	}
 	baseErr, basePanic := run()
 	h.rep.Count(fmt.Sprintf("uncle-baseline-accepted:%v", baseErr == nil && basePanic == ""))
+	snap0 := snapAux(wh)
+	required := false
 	if mut != nil {
+		required = mut.required(s)
 		mut.apply(s, r)
 		mname = mut.name
 	}
@@ -883,7 +903,11 @@ func caseUncle(h *H, r *hlib.Rng, variant string) {
 	if err == nil && wh.AuxPow() != nil {
 		monitorAuxAccepted(h, "VerifyUncles", wh, sigOK, true)
 	}
-	if mut != nil && mut.mustReject && basePanic == "" && baseErr == nil && err == nil {
+	if mut != nil && strings.HasPrefix(mname, "aux.") && basePanic == "" && baseErr == nil && err == nil && wh.AuxPow() != nil {
+		monitorUnbound(h, "VerifyUncles", mname, wh, snap0, snapAux(wh), !sigOK && ierr != nil && x.aux >= 2)
+	}
+	monitorTemplate(h, "VerifyUncles", wh.AuxPow())
+	if mut != nil && required && basePanic == "" && baseErr == nil && err == nil {
 		// a change that only invalidates the template signature of an out-of-scope SHA/Scrypt share is accepted because
 		// of the signature waiver: monitorAuxAccepted reports that root cause under its own signature
 		waived := !sigOK && ierr != nil && x.aux >= 2
